@@ -582,13 +582,15 @@ def _make_x(desc, key, ref, rsp):
     raise HarnessError('xmode ' + mode)
 
 
-def _check_norm(space, rsp, x):
+def _norm_agrees(space, rsp, x):
+    """The reference weights reproduce the norm of the space (C02 pins the
+    norm itself; a disagreement means the trusted base does not hold for
+    this space, e.g. on a tree where discretized norms ignore boundary
+    cells, and the case is skipped and counted)."""
     v = flat.flat(x, space)
     a = float(np.sqrt(rsp.norm2(v)))
     b = float(space.norm(x))
-    if abs(a - b) > 64 * EPS * max(rsp.size, 1) * max(a, b, 1e-300):
-        raise HarnessError('reference norm {!r} != space.norm {!r} for {!r}'
-                           ''.format(a, b, space))
+    return abs(a - b) <= 64 * EPS * max(rsp.size, 1) * max(a, b, 1e-300)
 
 
 def run_case(desc):
@@ -678,7 +680,11 @@ def run_case(desc):
     yv = _make_x(desc, 'y', ref, rsp)
     x = flat.unflat(xv, space)
     xv = flat.flat(x, space)
-    _check_norm(space, rsp, x)
+    probe_el = flat.unflat(np.arange(1.0, n + 1.0) / n, space)
+    if not (_norm_agrees(space, rsp, x) and
+            _norm_agrees(space, rsp, probe_el)):
+        return Outcome('excluded', strata=strata + ['excluded:ref-norm'],
+                       notes={'ref_norm_mismatch': 1})
     x_before = xv.copy()
 
     p_el = _odl_call(op, ctx, x)
